@@ -1,7 +1,5 @@
 package ovsdb
 
-import "encoding/json"
-
 // Row is a table Row according to RFC7047
 type Row map[string]interface{}
 
@@ -9,7 +7,7 @@ type Row map[string]interface{}
 func (r *Row) UnmarshalJSON(b []byte) (err error) {
 	*r = make(map[string]interface{})
 	var raw map[string]interface{}
-	err = json.Unmarshal(b, &raw)
+	err = unmarshalExact(b, &raw)
 	for key, val := range raw {
 		val, err = ovsSliceToGoNotation(val)
 		if err != nil {
